@@ -570,7 +570,17 @@ def c18(tier, replay=None):
                     info["worker"]["outcomes_last_worker"][k] = info["worker"]["outcomes_last_worker"].get(k, 0) + v
                 f.write((chk.work / f"trace_{s}.ndjson").read_text())
                 (chk.work / f"trace_{s}.ndjson").unlink()
-    st = batch_check(chk, "Trace_C18", trace, lambda rj, rec: {"why": rj["why"], "file": rj.get("loc", ""), "op": rj.get("op", "")},
+    def c18_sig(rj, rec):
+        op = rj.get("op", "")
+        if rec.get("outcome") == "abort":
+            # input class of an abort, from the text the supervisor kept: a redxor line in a file that declares a sort of
+            # 2^24 bits or more (the reader lowers redxor to one slice per bit of the operand)
+            toks = [l.split() for l in rec.get("text", [])]
+            huge = any(len(t) >= 4 and t[1] == "sort" and t[2] == "bitvec" and t[3].isdigit() and int(t[3]) >= 1 << 24 for t in toks)
+            if huge and any(len(t) >= 2 and t[1] == "redxor" for t in toks):
+                op = "redxor-with-huge-sort"
+        return {"why": rj["why"], "file": rj.get("loc", ""), "op": op}
+    st = batch_check(chk, "Trace_C18", trace, c18_sig,
                      lambda rj, rec: {"record": {k: v for k, v in rec.items() if k != "sys"}, "tlc": rj}, shards=14)
     ninputs = info.get("worker", {}).get("inputs", st["records"])
     chk.cov["traces_validated_against_impl"] = st["records"]
